@@ -74,7 +74,10 @@ pub struct ErrSource(Option<Box<dyn std::error::Error + Send + Sync + 'static>>)
     p.replace("Class::slice_from_prefix(", "shim_class_slice_from_prefix(", "R2")
     p.replace("Member::slice_from_prefix(", "shim_member_slice_from_prefix(", "R2", occ=1)
     p.replace("Member::slice_from_prefix(", "shim_member_slice_from_prefix(", "R2", occ=2)
+    nq = p.question_let_to_match()
     p.contract("""    ensures
+        /*@L:error_kind_is_the_frozen_v1_verdict:C11,C10*/ match ret { Ok(_) => parse_verdict(addr(buf), buf@.len() as nat, h_of(buf)) is None,
+                                                                      Err(e) => parse_verdict(addr(buf), buf@.len() as nat, h_of(buf)) == Some(e.kind) },
         /*@L:too_short_or_misaligned_is_error:C11,C12*/ (buf@.len() < 24 || addr(buf) % 4 != 0) ==> ret is Err,
         /*@L:header_verdicts:C11,C10*/ (buf@.len() >= 24 && addr(buf) % 4 == 0 && header_verdict(h_of(buf)) is Some) ==> ret is Err && ret->Err_0.kind == header_verdict(h_of(buf))->0,
         /*@L:accepted_iff_long_enough:C11,C10*/ (buf@.len() >= 24 && addr(buf) % 4 == 0) ==> (ret is Ok <==> accepted(addr(buf), buf@.len() as nat, h_of(buf))),
